@@ -1,6 +1,7 @@
 import Poly.Util.Proto
 import Poly.Model.EthRules
 import Poly.Model.EthHeaderRlp
+import Poly.Model.PoW
 /- Driver for the Ethereum light-client families. `drv_eth <family>` reads op lines on stdin.
    ethrules (C28): header rules; pow (C27): PoW fork choice; evm (C23): deposit proof decision. -/
 open Poly
@@ -98,7 +99,93 @@ def step (_ : Unit) (toks : List String) : Unit × String :=
 
 end EthRulesDrv
 
+namespace PowDrv
+open Poly.Model.EthRules Poly.Model.PoW
+
+/-- rules payload of a header: the fields the header rules read + len(extra) -/
+abbrev Pay := Poly.Model.EthRules.Hdr × Nat
+abbrev PHdr := Poly.Model.PoW.Hdr String Pay
+
+structure St where
+  net : Nat := 1
+  store : Option (Store String Pay) := none
+  genesis : String := ""
+  seen : List String := []       -- every hash that ever appeared in an op (candidate keys of the index)
+  lo : Nat := 0
+  hi : Nat := 0
+
+def validOf (net : Nat) (h p : PHdr) : Bool := checkRules net p.rules.1 h.rules.1 h.rules.2 == .ok
+
+/-- hash parent number time difficulty uncleEmpty gasLimit gasUsed baseFee extraLen (salt is not read by the model) -/
+def hdrOf : List String → Option PHdr
+  | [hash, parent, _salt, n, t, d, u, gl, gu, bf, ex] =>
+    let r : Poly.Model.EthRules.Hdr := ⟨EthRulesDrv.int n, EthRulesDrv.nat t, EthRulesDrv.int d, u == "1", EthRulesDrv.nat gl,
+      EthRulesDrv.nat gu, EthRulesDrv.optInt bf⟩
+    some ⟨hash, parent, EthRulesDrv.nat n, EthRulesDrv.nat d, (r, EthRulesDrv.nat ex)⟩
+  | _ => none
+
+def chunks11 : List String → List (List String)
+  | a :: b :: c :: d :: e :: f :: g :: h :: i :: j :: k :: rest => [a, b, c, d, e, f, g, h, i, j, k] :: chunks11 rest
+  | [] => []
+  | l => [l]
+
+def short (h : String) : String := (h.take 8).toString
+
+def insertSorted (x : String) : List String → List String
+  | [] => [x]
+  | y :: ys => if x ≤ y then x :: y :: ys else y :: insertSorted x ys
+
+def sortStr (l : List String) : List String := l.foldl (fun acc x => insertSorted x acc) []
+
+def dump (st : St) : String :=
+  match st.store with
+  | none => "nostate"
+  | some s =>
+    let idx := sortStr (st.seen.eraseDups.filterMap fun k =>
+      (s.index k).map fun e => s!"{short k}:{e.td}:{e.hdr.number}:{short e.hdr.parent}")
+    let heights := (List.range (st.hi + 4 - (st.lo - 2))).map (· + (st.lo - 2))
+    let main := heights.filterMap fun n => (s.main n).map fun h => s!"{n}:{short h}"
+    s!"cur={s.cur} genesis={short st.genesis} main=[{",".intercalate main}] index=[{",".intercalate idx}]"
+
+/-- The class label of the first failing header of a call (the state is folded exactly as `syncCall` does). -/
+def failLabel (net : Nat) (s : Store String Pay) : List PHdr → String
+  | [] => "ok"
+  | h :: rest =>
+    let (s', o) := syncHeader (validOf net) s h
+    match o with
+    | .orphan => "reject:orphan"
+    | .badHeight => "reject:height"
+    | .noHead => "reject:nohead"
+    | .invalid =>
+      match s.index h.parent with
+      | some pe => EthRulesDrv.showVerdict (checkRules net pe.hdr.rules.1 h.rules.1 h.rules.2)
+      | none => "reject:orphan"
+    | _ => failLabel net s' rest
+
+def step (st : St) (toks : List String) : St × String :=
+  match toks with
+  | "genesis" :: net :: rest =>
+    match hdrOf rest with
+    | some g =>
+      let st' : St := { net := EthRulesDrv.nat net, store := some (init g), genesis := g.hash, seen := [g.hash],
+                        lo := g.number, hi := g.number }
+      (st', dump st')
+    | none => (st, "bad-op")
+  | "sync" :: rest =>
+    match st.store, (chunks11 rest).mapM hdrOf with
+    | some s, some hs =>
+      let (s', outs) := syncCall (validOf st.net) s hs
+      let label := if outs.any Outcome.failed then failLabel st.net s hs else "ok"
+      let hi := hs.foldl (fun m h => max m h.number) st.hi
+      let st' : St := { st with store := some s', seen := st.seen ++ hs.map (·.hash) ++ hs.map (·.parent), hi := hi }
+      (st', label ++ " " ++ dump st')
+    | _, _ => (st, "bad-op")
+  | _ => (st, "bad-op")
+
+end PowDrv
+
 def main (args : List String) : IO Unit :=
   match args with
   | ["ethrules"] => Proto.run () EthRulesDrv.step
+  | ["pow"] => Proto.run ({} : PowDrv.St) PowDrv.step
   | _ => IO.eprintln "usage: drv_eth <family>"
